@@ -150,8 +150,36 @@ def make_flow(ctx, spin, menu, form, U=None):
     return run, check
 
 
+def make_remove_ancilla(ctx, spin):
+    """remove_ancilla_from_solution returns exactly the non-ancilla part: ancillas are the labels the library itself creates ('__a<k>')"""
+    import qubovert as qv
+    T = qv.PCSO if spin else qv.PCBO
+    k = ctx.int_var('k', 0, 3)
+    user = ['x', 'slot__a', 'a__a0', '_a1', ('__a0',), 0, 7, ('x', '__a'), 'A__a', '__b0', 'y__']
+
+    def run():
+        n = int(k)
+        H = T()
+        H.add_constraint_lt_zero({('x',): 1, ('slot__a',): 1, ('a__a0',): 1, (): -3 - n}, lam=1)
+        anc = [v for v in H.variables if isinstance(v, str) and v.startswith('__a') and v[3:].isdigit()]
+        sol = {l: (1 if (i % 2) else (-1 if spin else 0)) for i, l in enumerate(user + anc)}
+        out_i = H.remove_ancilla_from_solution(dict(sol))
+        out_c = T.remove_ancilla_from_solution(dict(sol))
+        return sol, anc, out_i, out_c
+
+    def check(res):
+        sol, anc, out_i, out_c = res
+        want = {l: v for l, v in sol.items() if l not in anc}
+        return [Ob('remove_ancilla_from_solution (instance) keeps exactly the non-ancilla labels', out_i == want, info={'dropped': sorted(map(repr, set(want) - set(out_i))), 'kept_ancillas': sorted(set(out_i) & set(anc))}),
+                Ob('remove_ancilla_from_solution (classmethod) keeps exactly the non-ancilla labels', out_c == want, info={'dropped': sorted(map(repr, set(want) - set(out_c)))}),
+                Ob('the constraint really created ancillas', len(anc) >= 1)]
+    return run, check
+
+
 def jobs(tier, seed):
     J = []
+    for sp in (False, True):
+        J.append(dict(name='remove_ancilla/%s' % ('spin' if sp else 'bool'), sig='remove_ancilla', module='vq.props.c08', make='make_remove_ancilla', args=dict(spin=sp), budget_s=120))
     def add(spin, menu, form, U=None, budget=400):
         J.append(dict(name='%s/%s/%s%s' % ('spin' if spin else 'bool', menu, form, '/U=' + ','.join(''.join(x[1:] for x in k) for k in U) if U else ''), sig='%s/%s' % ('spin' if spin else 'bool', form), module='vq.props.c08', make='make_flow',
                       args=dict(spin=spin, menu=menu, form=form, U=U), budget_s=budget if tier == 'quick' else 2400, final_timeout_ms=120000))
